@@ -227,23 +227,26 @@ def _session_generate(ck):
     depth = ck.q(9, 12)
 
     def gen(kind):
-        if kind == "trans":
-            cfg = open(ck.spec + "/MC_C12_session_trans.cfg").read().replace("MaxLen = 5", f"MaxLen = {maxlen}")
-            open(ck.spec + "/MC_C12_session_run.cfg", "w").write(cfg)
-            return ck.tlc("MC_C12_session", "MC_C12_session_run", workers=1, label=f"[session] exhaustive to {maxlen} calls (3 fixed + {maxlen - 3} free), VIEW hides history, transition cover export", required_actions=["SNext"], timeout=3000)
-        if kind == "trans2":
-            # an old and a new quantity under one spelling (5 fixed calls), then calls on quantities and string reads only
-            cfg = open(ck.spec + "/MC_C12_session_trans.cfg").read().replace("MaxLen = 5", f"MaxLen = {maxlen + 2}").replace("PreKind = 1", "PreKind = 2")
-            open(ck.spec + "/MC_C12_session_run2.cfg", "w").write(cfg)
-            return ck.tlc("MC_C12_session", "MC_C12_session_run2", workers=1, label=f"[session] old+new quantity under one spelling: exhaustive to {maxlen + 2} calls (5 fixed + {maxlen - 3} free, no edits), transition cover export", required_actions=["SNext"], timeout=3000)
-        cfg = open(ck.spec + "/MC_C12_session_sim.cfg").read().replace("MaxLen = 12", f"MaxLen = {depth + 3}").replace("ExportLen = 9", f"ExportLen = {depth}")
+        if kind in ("trans", "trans2", "trans3"):
+            # PreKind 1: add foo, add qux, the unit system, make 3 foo (4 fixed calls), then every call free
+            # PreKind 2: ... modify foo through the other handle, make 5 foo (6 fixed): an old and a new quantity under one
+            #            spelling; then calls on quantities and string reads only
+            # PreKind 3: add, add, the unit system, make 3 m, reduce it to the system once (5 fixed); then edits (modify /
+            #            remove / contains) and calls on quantities: the same object reduced again after an edit
+            k = {"trans": 1, "trans2": 2, "trans3": 3}[kind]
+            fixed = {1: 4, 2: 6, 3: 5}[k]
+            free = maxlen - 3
+            cfg = open(ck.spec + "/MC_C12_session_trans.cfg").read().replace("MaxLen = 5", f"MaxLen = {fixed + free}").replace("PreKind = 1", f"PreKind = {k}")
+            open(ck.spec + f"/MC_C12_session_run{k}.cfg", "w").write(cfg)
+            return ck.tlc("MC_C12_session", f"MC_C12_session_run{k}", workers=1, label=f"[session] preamble {k}: exhaustive to {fixed} fixed + {free} free calls, VIEW hides history, transition cover export; action property ModelProps", required_actions=["SNext"], timeout=3000)
+        cfg = open(ck.spec + "/MC_C12_session_sim.cfg").read().replace("MaxLen = 12", f"MaxLen = {depth + 4}").replace("ExportLen = 9", f"ExportLen = {depth}")
         open(ck.spec + "/MC_C12_session_simrun.cfg", "w").write(cfg)
         return ck.tlc("MC_C12_session", "MC_C12_session_simrun", workers=1, simulate=n_sim, depth=depth + 1, label=f"[session] simulation depth={depth}", timeout=1800)
 
-    with cf.ThreadPoolExecutor(3) as ex:
-        rt, rt2, rs = ex.map(gen, ["trans", "trans2", "sim"])
-    hists = rt.by_tag("HIST") + rt2.by_tag("HIST")
-    if len(rt.by_tag("HIST")) < 1000 or len(rt2.by_tag("HIST")) < 500:
+    with cf.ThreadPoolExecutor(4) as ex:
+        rt, rt2, rt3, rs = ex.map(gen, ["trans", "trans2", "trans3", "sim"])
+    hists = rt.by_tag("HIST") + rt2.by_tag("HIST") + rt3.by_tag("HIST")
+    if len(rt.by_tag("HIST")) < 1000 or len(rt2.by_tag("HIST")) < 500 or len(rt3.by_tag("HIST")) < 500:
         raise MachineryFailure("session: too few histories exported")
     sims = rs.by_tag("HIST")
     rnd = random.Random(ck.seed)
@@ -252,7 +255,7 @@ def _session_generate(ck):
         fam.setdefault(str(c["ev"][:-1]), []).append(c)
     sims = [c for k in sorted(fam) for c in rnd.sample(fam[k], min(3, len(fam[k])))]
     # model-level verdict of the transcription (TLC also checks the action property ModelProps: frame, denotation, freshness)
-    ck.cov["session_model_states_where_pickle_changes_a_quantity"] = len(rt.by_tag("MODEL-PICKLE")) + len(rt2.by_tag("MODEL-PICKLE"))
+    ck.cov["session_model_states_where_pickle_changes_a_quantity"] = len(rt.by_tag("MODEL-PICKLE")) + len(rt2.by_tag("MODEL-PICKLE")) + len(rt3.by_tag("MODEL-PICKLE"))
     ck.cov["bound"]["session"] = {"MaxLen": maxlen, "transitions_exported": len(hists), "simulated": len(sims), "sim_depth": depth}
     return [{"ev": r["ev"]} for r in hists], [{"ev": r["ev"]} for r in sims]
 
